@@ -857,6 +857,113 @@ example : newTLSConn 5 ⟨true⟩ 1 (.hon 1)
     [some [honestCert 2 12 (.hon 1)], some [{ honestCert 1 12 (.hon 1) with ext := some (.sig 2 (.hon 1) (.new 1)) }],
      some [honestCert 1 11 (.hon 1)]] = some 2 := by decide
 
+/-! ### round 5: the verifier is the first objecting test of a list; an honest key holder is never locked out -/
+
+/-- **refinement to a list of tests**: `makeVerifier`'s closure answers with the first test, in source
+order, that objects to what was presented, each test looked at on its own; `nil` iff none objects.
+(The correspondence run compares the *name* of the refusing test with the error the real closure returns,
+operation `vrf`.) -/
+theorem c08_first_objecting_test (s : Suite) (them : Option Key) (n : Nonce) (raw : List Cert) :
+    verifyPeer s them n raw = Check.order.find? (objects s them n raw) := by
+  unfold verifyPeer verifyPeerG Check.order
+  cases raw with
+  | nil => simp [objects, List.find?]
+  | cons c rest =>
+    cases rest with
+    | cons d rest' => simp [objects, List.find?]
+    | nil =>
+      simp only [List.find?, objects, List.head?, List.length_cons, List.length_nil, List.isEmpty_nil,
+        Bool.true_and, Bool.not_true, Bool.false_eq_true, if_false]
+      cases hp : c.parses
+      · simp
+      by_cases h0 : c.count = 0
+      · simp [h0]
+      have e0 : (c.count == 0) = false := by simp [h0]
+      by_cases h1 : c.count = 1
+      case neg =>
+        have e1 : (c.count != 1) = true := by simp [h1]
+        simp [*]
+      have e1 : (c.count != 1) = false := by simp [h1]
+      cases hx : x509ok c
+      · simp [*]
+      cases them with
+      | none =>
+        cases he : c.ext
+        · simp [*]
+        cases hk : pubFromCN s c.cn
+        · simp [*]
+        rename_i sg pub
+        cases hv : schnorrVerify pub n c.cn sg <;> simp [*]
+      | some t =>
+        cases hex : expectedOk t c
+        · simp [*]
+        cases he : c.ext
+        · simp [*]
+        cases hk : pubFromCN s c.cn
+        · simp [*]
+        rename_i sg pub
+        by_cases hpt : pub = t
+        · subst hpt
+          cases hv : schnorrVerify pub n c.cn sg <;> simp [*]
+        · have ept : (pub != t) = true := by simp [hpt]
+          simp [*]
+
+/-- every test of the list is reachable: for each of the nine there is a presentation it is the first to
+object to (non-vacuity of `c08_first_objecting_test`; the harness rows of the same names drive them) -/
+example : ∀ ch ∈ Check.order, ∃ them raw, verifyPeer ⟨false⟩ them (.hon 1) raw = some ch := by
+  intro ch hch
+  simp only [Check.order, List.mem_cons, List.mem_nil_iff, or_false] at hch
+  rcases hch with h | h | h | h | h | h | h | h | h <;> subst h
+  · exact ⟨none, [], by decide⟩
+  · exact ⟨none, [{ honestCert 1 11 (.hon 1) with parses := false }], by decide⟩
+  · exact ⟨none, [{ honestCert 1 11 (.hon 1) with count := 2 }], by decide⟩
+  · exact ⟨none, [{ honestCert 1 11 (.hon 1) with validity := .expired }], by decide⟩
+  · exact ⟨some 2, [honestCert 1 11 (.hon 1)], by decide⟩
+  · exact ⟨none, [{ honestCert 1 11 (.hon 1) with ext := none }], by decide⟩
+  · exact ⟨none, [{ honestCert 1 11 (.hon 1) with cn := .old 1 }], by decide⟩
+  · exact ⟨some 1, [{ honestCert 1 11 (.hon 1) with cn := .new 2 }], by decide⟩
+  · exact ⟨none, [{ honestCert 1 11 (.hon 1) with ext := some (.sig 1 (.hon 0) (.new 1)) }], by decide⟩
+
+/-- **nothing the adversary does locks an honest key holder out** (liveness next to `c08_fresh_signature`):
+in *every* state of the world — whatever was signed, presented, accepted or refused before — the honest
+holder of `k` can still complete an open handshake `i` that expects `k` (dialling role) or anybody
+(accepting role): the event is enabled and handshake `i` accepts the holder's certificate. -/
+theorem c08_honest_never_locked_out (S : Setting) (w : World) (i : Nat) (k : Key) (h : Hs)
+    (hi : w.hs[i]? = some h) (hk : S.adv k = false) (hthem : h.them = none ∨ h.them = some k) :
+    ∃ w', step S w (.honest i k .new) = some w' ∧
+      (i, honestCert k (S.tlsOf k) (.hon i)) ∈ w'.acc ∧ (k, .hon i, .new k) ∈ w'.log := by
+  have hlt : i < w.hs.length := by
+    rcases Nat.lt_or_ge i w.hs.length with hl | hl
+    · exact hl
+    · rw [List.getElem?_eq_none hl] at hi; cases hi
+  have hcert := certFor_new k (S.tlsOf k) (.hon i) (by simp)
+  have hacc : verifyPeer S.suite h.them (.hon i) [honestCert k (S.tlsOf k) (.hon i)] = none := by
+    have t := c08_each_check_necessary S.suite k (S.tlsOf k) (.hon i)
+    rcases hthem with e | e <;> rw [e]
+    · exact t.2.1
+    · exact t.1
+  refine ⟨{ w with log := (k, .hon i, .new k) :: w.log,
+                   acc := (i, honestCert k (S.tlsOf k) (.hon i)) :: w.acc }, ?_, by simp, by simp⟩
+  have hget : w.hs[i] = h := by
+    obtain ⟨_, e⟩ := List.getElem?_eq_some_iff.mp hi
+    exact e
+  simp [step, signFor, hk, knownNonce, hlt, hcert, verifyAt, Style.name, hget, hacc]
+
+/-- the hypotheses are met in a world the adversary has already worked on: after the relay of the known
+finding was accepted at handshake 0, the real server still completes handshake 1 -/
+example : ∃ w w', run relaySetting {} (relayDial ++ [.mkVerifier (some 1)]) = some w ∧
+    step relaySetting w (.honest 1 1 .new) = some w' ∧ (1, honestCert 1 101 (.hon 1)) ∈ w'.acc := by
+  refine ⟨_, _, rfl, rfl, ?_⟩
+  decide
+
+/-- **key naming round trip** (`pubFromCN ∘ pubToCN`, tls.go:409-445): the name the certificate maker
+writes decodes to the key it was made from, under every suite, and names of different keys differ -/
+theorem c08_cn_roundtrip (s : Suite) (k k' : Key) :
+    pubFromCN s (pubToCN k) = some k ∧ (pubToCN k = pubToCN k' → k = k') := by
+  constructor
+  · rfl
+  · intro h; cases h; rfl
+
 /-! ### the code regions the model stands for
 Regenerated from /repo's source on every run (`harness/cmd/astfacts` → `OnetVerif/Shapes.lean`): the
 calls that matter for synchronisation and data flow, the lock regions and (for decision logic) the
